@@ -154,6 +154,17 @@ CHECKS = {
             "x 7 coprocessor instructions: Undefined / Hyp trap / hook reached per CoprocAccepted.",
             "Trusted: ref.rows_block.cpsr_write_by_instr, ref.rows_sys, ref.exc. Two open known findings (privileged MRS "
             "Rd,CPSR).", "3 C12"),
+    "C08": ("program enumeration (all legal IT headers x flag states x instruction sequences over a menu) co-simulated step "
+            "by step: reference stepper vs emulate_cycle, whole snapshot compared after every step",
+            "ITAdvance on all 256 ITSTATE values; then for each of the 210 legal (firstcond, mask) pairs x NZCV x every "
+            "sequence of block-length+1 menu instructions (16-bit flag-setting ALU op, 32-bit ALU op, CMP changing the flags "
+            "mid-block, SVC, UDF, alignment-faulting load, branch as last) the program is run on the emulator and on the "
+            "reference stepper in lock step, with Thumb exception handlers at the vectors that return into the block; "
+            "after every step the full snapshot is compared: which slots executed, no flag update by 16-bit ALU ops in the "
+            "block, ITSTATE per instruction and empty after the last, IT saved (advanced for SVC) and cleared on entry and "
+            "restored on return.",
+            "Trusted: ref.model (table-driven stepper) and the row semantics it uses. Quick uses 8 NZCV values on which "
+            "every condition takes both outcomes and the exception items only on blocks of length <= 2.", "3 C08"),
 }
 NOT_YET = "check not built yet in this round (see DESIGN.md section 3 for the planned bounded-exhaustive formulation)"
 
